@@ -367,7 +367,7 @@ def shard(tier, i, n, seed):
     for idx, name, T, origin, form, data in inputs(tier):
         if (idx + seed) % n != i:
             continue
-        guarded(R, lambda: check_input(idx, name, T, origin, form, data, R), {'type': name, 'T': T, 'data': data, 'origin': origin}, {'type:' + name}, idx)
+        guarded(R, lambda: check_input(idx, name, T, origin, form, data, R), {'type': name, 'T': T, 'data': data, 'origin': origin}, {'type:' + name}, idx, cpu_limit=180)
         if idx % 3001 == seed % 3001:
             R.sample({'type': name, 'origin': origin, 'input': data.hex()})
     return R
